@@ -43,3 +43,16 @@ VARIANTS = [
         "        attribute_tokens: List[str] = sample_annotation_[\"attribute_tokens\"]\n        attributes: List[str] = [nusc.get(\"attribute\", token)[\"name\"] for token in attribute_tokens]\n        semantic_label = label_converter.convert_label(object_box.name, attributes)",
         "        attr_tokens: List[str] = sample_annotation_[\"attribute_tokens\"]\n        attrs: List[str] = [nusc.get(\"attribute\", token)[\"name\"] for token in attr_tokens]\n        semantic_label = label_converter.convert_label(object_box.name, attrs)")]),
 ]
+
+# seeded (wave 5): memoised history lookup whose key omits the sample token; and a correct memo as the benign twin
+_CALL = '    past_records_: List[Dict[str, Any]] = helper.get_past_for_agent(\n        instance_token=instance_token,\n        sample_token=sample_token,\n        seconds=seconds,\n        in_agent_frame=in_agent_frame,\n        just_xy=False,\n    )\n'
+VARIANTS += [
+    dict(name="seed-memo-key-omits-sample", kind="break", rule="C16-tracking", edits=[
+        ("common/dataset_utils.py", "def _get_tracking_data(\n", "_PAST_RECORDS_CACHE: Dict[Tuple[int, str, bool, float], List[Dict[str, Any]]] = {}\n\n\ndef _get_tracking_data(\n"),
+        ("common/dataset_utils.py", _CALL, '    cache_key = (id(nusc), instance_token, in_agent_frame, seconds)\n    if cache_key not in _PAST_RECORDS_CACHE:\n        _PAST_RECORDS_CACHE[cache_key] = helper.get_past_for_agent(\n            instance_token=instance_token,\n            sample_token=sample_token,\n            seconds=seconds,\n            in_agent_frame=in_agent_frame,\n            just_xy=False,\n        )\n    past_records_: List[Dict[str, Any]] = _PAST_RECORDS_CACHE[cache_key]\n')]),
+    dict(name="memo-key-complete", kind="benign", edits=[
+        ("common/dataset_utils.py", "def _get_tracking_data(\n", "_PAST_RECORDS_CACHE: Dict[Tuple[int, str, str, bool, float], List[Dict[str, Any]]] = {}\n\n\ndef _get_tracking_data(\n"),
+        ("common/dataset_utils.py", _CALL, '    cache_key = (id(nusc), instance_token, sample_token, in_agent_frame, seconds)\n    if cache_key not in _PAST_RECORDS_CACHE:\n        _PAST_RECORDS_CACHE[cache_key] = helper.get_past_for_agent(\n            instance_token=instance_token,\n            sample_token=sample_token,\n            seconds=seconds,\n            in_agent_frame=in_agent_frame,\n            just_xy=False,\n        )\n    past_records_: List[Dict[str, Any]] = _PAST_RECORDS_CACHE[cache_key]\n')]),
+    dict(name="history-from-other-records", kind="break", rule="C16-tracking", edits=[
+        ("common/dataset_utils.py", "    for record_ in past_records_:", "    for record_ in past_records_[1:]:")]),
+]
